@@ -634,7 +634,7 @@ top:
 		//vv("in LexerBuiltinOperator, first='%s', atom='%s', lexer.prevrune='%c'", first, atom, lexer.prevrune)
 		// are we a negative number -1 or -.1 rather than  ->, --, -= operator?
 		if lexer.prevrune == '-' && canStartSignedNumberAfter(lexer.preBuiltinRune) {
-			if FloatRegex.MatchString(atom) || DecimalRegex.MatchString(atom) {
+			if FloatRegex.MatchString(atom) || DecimalRegex.MatchString(atom) || atom == "-." {
 				//Q("'%s' is the beginning of a negative number", atom)
 				_, err := lexer.buffer.WriteString(atom)
 				if err != nil {
